@@ -69,6 +69,11 @@ fn replay_known(out: &mut Out) {
             vec![vec![i(1)], vec![i(2)], vec![i(1)], vec![i(2)]],
         ),
         (
+            "bound_node_after_with",
+            "MATCH (n) WITH n AS m MATCH (m:B) RETURN id(m) AS x",
+            vec![vec![i(2)], vec![i(3)]],
+        ),
+        (
             "collect_distinct_entities",
             "MATCH (n:A) RETURN size(collect(DISTINCT n)) AS x",
             vec![vec![i(2)]],
